@@ -49,6 +49,10 @@ time.time = _recording_time     # record what the code read; the value itself is
 
 
 def main():
+    if os.environ.get("TZ"):
+        time.tzset()
+    TZ = os.environ.get("TZ", "")
+    PART = os.environ.get("VERIF_C17_PART", "full")
     tier = os.environ.get("VERIF_C17_TIER", "quick")
     seed = int(os.environ.get("VERIF_C17_SEED", "0"))
     quick = tier == "quick"
@@ -96,11 +100,11 @@ def main():
         res.evaluations += 1
         tie.check(cases.reg_case(c, e), code, label=["chain-at", t - T0])
         exp = chain_expected(t + 0.5)
-        res.nontrivial.add(("chain", t - T0))
+        res.nontrivial.add(("chain", TZ, t - T0))
         res.count("chain:" + corr.kind(code))
         if exp is not None and (code["k"] == "accept") != exp:
             kind = "accepted outside" if code["k"] == "accept" else "rejected inside"
-            entry = {"why": f"certificate chain {kind} the validity periods at clock offset {t - T0:+.0f}s", "offset": t - T0,
+            entry = {"why": f"certificate chain {kind} the validity periods at clock offset {t - T0:+.0f}s (process TZ={TZ})", "offset": t - T0,
                      "windows": {k: [a - T0, b_ - T0] for k, (a, b_) in windows.items()}, "code": code,
                      "match": {"op": "verify_reg", "clock": "chain"}}
             (res.violations if code["k"] == "accept" else res.nonblocking).append(entry)
@@ -118,6 +122,13 @@ def main():
             res.violations.append({"why": f"outcome at clock offset {t - T0:+.0f}s inside a call sequence does not follow the clock "
                                           f"of that call: {trail}", "match": {"op": "verify_reg", "clock": "sequence"}})
     res.samples.append({"chain_windows_relative_s": {k: [a - T0, b_ - T0] for k, (a, b_) in windows.items()}, "sequence": trail[:7]})
+
+    if PART == "chain":
+        set_clock(time.time())
+        if drv:
+            drv.close()
+        sys.stdout.buffer.write(pickle.dumps(res))
+        return
 
     # ---- SafetyNet timestamp
     set_clock(T0 + 0.5)
@@ -156,6 +167,27 @@ def main():
         if must_accept and code["k"] != "accept":
             res.violations.append({"why": f"SafetyNet attestation rejected with timestamp only {d} ms away from the verifier's clock: {code.get('msg')}",
                                    "delta_ms": d, "match": {"op": "verify_reg", "clock": "safetynet-complete"}})
+    # the right instant in the wrong unit (seconds, microseconds) or no instant at all: decades outside the window
+    for f in ("S.ts-in-seconds", "S.ts-in-microseconds", "S.ts-zero"):
+        for dt in (0.0, 3.0, -3.0):
+            set_clock(T0 + dt + 0.5)
+            bu = _reg.build("android-safetynet", ("p256", 2, core.ES256), (f,), base_time=base)
+            if bu is None:
+                continue
+            requ, ru = bu
+            eu = _reg.expectation(requ, ru.roots)
+            _last_time[0] = None
+            code = cases.run_reg(ru.credential, eu)
+            res.evaluations += 1
+            seen = _last_time[0]
+            orc.begin_case(overrides={"now_seconds": (lambda q, seen=seen: {"t": str(int(seen))} if seen is not None else None)})
+            tie.check(cases.reg_case(ru.credential, eu), code, label=["safetynet-unit", f, dt])
+            orc.begin_case()
+            res.nontrivial.add(("snet-unit", f, dt))
+            res.count("safetynet-unit:" + corr.kind(code))
+            if code["k"] == "accept":
+                res.violations.append({"why": f"SafetyNet attestation accepted although its timestampMs ({f}) is decades away from the "
+                                              f"verifier's clock", "fault": f, "match": {"op": "verify_reg", "clock": "safetynet-unit"}})
     # same SafetyNet response verified again after the clock has left the window
     trail = []
     for t_ms in [ts_ms, ts_ms + 5000, ts_ms + 12000, ts_ms, ts_ms - 12000, ts_ms + 1000]:
